@@ -326,6 +326,12 @@ int main() {
                     }
                 }
                 out = "END";
+            } else if (cmd == "RESOLVE") {
+                // the run-time type context of generic impl blocks: ast.h TypeContext::resolve_complex_type
+                long k = tk.num(); std::map<std::string, std::string> m;
+                for (long i = 0; i < k; i++) { std::string a = dec(tk.next()); std::string b = dec(tk.next()); m[a] = b; }
+                TypeContext ctx(m);
+                out = "R " + enc(ctx.resolve_complex_type(dec(tk.next())));
             } else if (cmd == "DEFAULTS") {
                 ASTNode d(ASTNodeType::AST_NUMBER);
                 out = "D";
